@@ -458,6 +458,7 @@ pub fn run(tier: Tier) -> i32 {
         Box::new(ms_d(t)),
         Box::new(crate::families::scale_family(true)),
         Box::new(crate::families::sorted_run_family()),
+        Box::new(crate::families::r8_metadata_family()),
         Box::new(crate::families::unicode_family()),
         Box::new(crate::families::relation_family()),
         Box::new(crate::families::collision_family()),
